@@ -244,7 +244,9 @@ func c09Finishers() []c09Fin {
 			}
 			return db.Model(c09Model(soft, key)).Updates(WPlain{B: &v})
 		}},
-		{Name: "UpdateColumn", Run: func(db *gorm.DB, soft bool, key int) *gorm.DB { return db.Model(c09Model(soft, key)).UpdateColumn("b", 91) }},
+		{Name: "UpdateColumn", Run: func(db *gorm.DB, soft bool, key int) *gorm.DB {
+			return db.Model(c09Model(soft, key)).UpdateColumn("b", 91)
+		}},
 		{Name: "UpdateColumns", Run: func(db *gorm.DB, soft bool, key int) *gorm.DB {
 			return db.Model(c09Model(soft, key)).UpdateColumns(map[string]interface{}{"b": 91})
 		}},
